@@ -96,11 +96,15 @@ func mkToken(name string, perms []string, exp time.Time) *token.Stateful {
 	}
 }
 
+// togglePerms alternates between two permission lists of the SAME encoded
+// size ("present" / "message"), so that successive versions of the token file
+// differ only in their modification time: a version tag that ignored
+// sub-second differences would then collide.
 func togglePerms(p []string) []string {
-	if len(p) == len(permsA) {
-		return append([]string(nil), permsB...)
+	if len(p) == 1 && p[0] == "present" {
+		return []string{"message"}
 	}
-	return append([]string(nil), permsA...)
+	return []string{"present"}
 }
 
 func tstr(t *time.Time, rel bool) string {
